@@ -330,6 +330,14 @@ RBool(d) ==
                          Bn(RandomElement({"and", "or", "implies"}),
                             Bn(RandomElement({"<", "!="}), VarR("@" \o QVar(d)), RNum(d - 1)), RBool(d - 1)))
          [] OTHER -> RBoolAtom
+(* ---- the same element reached through differently written (but equal) index or operand spellings, used twice: what a
+   ---- rewriting function folds may make two references coincide that the parser kept apart ---- *)
+IdxPairs == {<<Bn("+", NumA("1"), NumA("1")), NumA("2")>>, <<Bn("-", NumA("3"), NumA("3")), NumA("0")>>,
+             <<Bn("+", Own("k"), NumA("0")), Own("k")>>, <<Bn("+", NumA("1"), Own("k")), Bn("+", Own("k"), NumA("1"))>>,
+             <<Bn("*", NumA("1"), Own("k")), Own("k")>>, <<NumA("2"), NumA("2")>>}
+IdxCtx(r) == {Bn("=", r, StrA("$s")), Bn(">", r, NumA("0")), Bn("=", r, Own("y")), Un("not", r), Bn("in", r, SetOf(<<NumA("1"), NumA("2")>>))}
+FoldIdx == UNION {{Bn(op, c1, c2) : op \in {"and", "or"}, c1 \in IdxCtx(Idx(a, pr[1])), c2 \in IdxCtx(Idx(a, pr[2]))}
+                   : pr \in IdxPairs, a \in {Own("xs"), Fld(VarR("@A"), "ns")}}
 RandTerms == {IF i % 3 = 0 THEN RNum(RandDepth) ELSE RBool(RandDepth) : i \in 1..RandN}
 
 Members ==
@@ -350,6 +358,7 @@ Members ==
     [] Family = "rand"    -> RandTerms
     [] Family = "qdom"    -> QInDomain
     [] Family = "loose"   -> LooseThenNarrow
+    [] Family = "foldidx" -> FoldIdx
     [] OTHER -> {}
 
 TInit == cst \in Members
